@@ -620,6 +620,97 @@ theorem delpic_keeps_referenced_media (own others : List Rel) (media : List Str)
         rw [List.any_eq_true]
         exact ⟨x, hx, by simp [hty, heq]⟩
 
+/-! ## element order inside worksheets and chart sheets -/
+
+theorem stepOk_of_ltB {schema : List String} {a b : String} (h : ltB schema a b = true) : stepOk schema a b = true := by
+  unfold ltB at h
+  unfold stepOk
+  cases ha : rankIn schema a <;> cases hb : rankIn schema b <;> simp_all
+
+theorem okAfter_replicate_self (schema : List String) (f : String) (n : Nat) (tail : List String)
+    (hk : (rankIn schema f).isSome = true) (hr : n = 0 ∨ repeatable f = true) :
+    okAfter schema (some f) (List.replicate n f ++ tail) = okAfter schema (some f) tail := by
+  induction n with
+  | zero => rfl
+  | succ n ih =>
+    have hrep : repeatable f = true := by rcases hr with h | h; exact absurd h (by omega); exact h
+    have hs : stepOk schema f f = true := by
+      unfold stepOk
+      cases hf : rankIn schema f with
+      | none => rw [hf] at hk; cases hk
+      | some i => simp [hrep]
+    simp only [List.replicate_succ, List.cons_append, okAfter, hs, Bool.true_and]
+    exact ih (Or.inr hrep)
+
+/-- one field, emitted `n` times (at most once unless repeatable), after a smaller (or no) element -/
+theorem okAfter_field (schema : List String) (prev : Option String) (f : String) (n : Nat) (tail : List String)
+    (hk : (rankIn schema f).isSome = true) (hp : ∀ a, prev = some a → ltB schema a f = true)
+    (hn : n ≤ 1 ∨ repeatable f = true) :
+    okAfter schema prev (List.replicate n f ++ tail) = okAfter schema (if n = 0 then prev else some f) tail := by
+  cases n with
+  | zero => rfl
+  | succ n =>
+    have hr : n = 0 ∨ repeatable f = true := by rcases hn with h | h; exact Or.inl (by omega); exact Or.inr h
+    simp only [List.replicate_succ, List.cons_append, Nat.succ_ne_zero, if_false]
+    cases prev with
+    | none => simp only [okAfter, hk, Bool.true_and]; exact okAfter_replicate_self schema f n tail hk hr
+    | some a =>
+      simp only [okAfter, stepOk_of_ltB (hp a rfl), Bool.true_and]
+      exact okAfter_replicate_self schema f n tail hk hr
+
+theorem ltB_trans {schema : List String} {a b c : String} (h1 : ltB schema a b = true) (h2 : ltB schema b c = true) :
+    ltB schema a c = true := by
+  unfold ltB at *
+  cases ha : rankIn schema a <;> cases hb : rankIn schema b <;> cases hc : rankIn schema c <;> simp_all <;> omega
+
+theorem emitSeq_ok (schema : List String) (fields : List String) (count : String → Nat) (prev : Option String)
+    (hf : fieldsFollow schema fields = true) (hp : ∀ a, prev = some a → ∀ f ∈ fields, ltB schema a f = true)
+    (hn : ∀ f ∈ fields, count f ≤ 1 ∨ repeatable f = true) :
+    okAfter schema prev (emitSeq fields count) = true := by
+  induction fields generalizing prev with
+  | nil => rfl
+  | cons f fs ih =>
+    simp only [fieldsFollow, Bool.and_eq_true] at hf
+    obtain ⟨⟨hk, hall⟩, hrest⟩ := hf
+    have hall' : ∀ g ∈ fs, ltB schema f g = true := fun g hg => List.all_eq_true.mp hall g hg
+    unfold emitSeq
+    rw [List.flatMap_cons]
+    rw [okAfter_field schema prev f (count f) _ hk (fun a ha => hp a ha f (by simp)) (hn f (by simp))]
+    apply ih
+    · exact hrest
+    · intro a ha g hg
+      split at ha
+      · exact hp a ha g (by simp [hg])
+      · cases ha; exact hall' g hg
+    · intro g hg; exact hn g (by simp [hg])
+
+/-- `worksheet_writer_emits_schema_order`: whatever subset of its fields a worksheet carries
+(each pointer field present or absent, the slice field `conditionalFormatting` any number of
+times), the element sequence that encoding/xml — and the stream writer, which copies the same
+fields by index — produces from the regenerated field order of `xlsxWorksheet` passes the
+`element-order` conjunct of `WF` (the xsd:sequence of CT_Worksheet); likewise `xlsxChartsheet`
+and CT_Chartsheet. Moving a field in the struct breaks this theorem. -/
+theorem worksheet_writer_emits_schema_order (count : String → Nat)
+    (hws : ∀ f ∈ Facts.C05.wsFieldOrder, f ∉ Facts.C05.wsFieldOrderSlices → count f ≤ 1)
+    (hcs : ∀ f ∈ Facts.C05.csFieldOrder, f ∉ Facts.C05.csFieldOrderSlices → count f ≤ 1) :
+    chainOk wsSchemaOrder (emitSeq Facts.C05.wsFieldOrder count) = true ∧
+    chainOk csSchemaOrder (emitSeq Facts.C05.csFieldOrder count) = true := by
+  have h1 : fieldsFollow wsSchemaOrder Facts.C05.wsFieldOrder = true := by decide +kernel
+  have h2 : fieldsFollow csSchemaOrder Facts.C05.csFieldOrder = true := by decide +kernel
+  have h3 : ∀ f ∈ Facts.C05.wsFieldOrderSlices, repeatable f = true := by decide +kernel
+  have h4 : ∀ f ∈ Facts.C05.csFieldOrderSlices, repeatable f = true := by decide +kernel
+  constructor
+  · apply emitSeq_ok _ _ _ none h1 (fun a ha => by cases ha)
+    intro f hf
+    by_cases hs : f ∈ Facts.C05.wsFieldOrderSlices
+    · exact Or.inr (h3 f hs)
+    · exact Or.inl (hws f hf hs)
+  · apply emitSeq_ok _ _ _ none h2 (fun a ha => by cases ha)
+    intro f hf
+    by_cases hs : f ∈ Facts.C05.csFieldOrderSlices
+    · exact Or.inr (h4 f hs)
+    · exact Or.inl (hcs f hf hs)
+
 /-! ## shared strings -/
 
 /-- every entry of the text ↦ index map points into the item list -/
